@@ -251,16 +251,22 @@ func freeCase(b *harness.B, leaves []H, seed uint64, freed []uint64, all bool) {
 
 	// altered index sets: a verifier is unsound only if it accepts a claim that is
 	// false, i.e. the altered set applied to the same old list does NOT give newRoot.
-	judgeSet := func(kind, what string, fr []uint64) {
+	// The rhp2 verifier is given the corresponding altered swap/trim actions.
+	judgeSet := func(kind, v2kind, what string, fr []uint64) {
 		if !distinctLegal(fr, n) {
 			return
 		}
 		nl, _ := applyActions(leaves, freeActions(fr, n))
+		l2, _ := toLib(freeActions(fr, n), nil)
+		v2 := func() bool { return rhp2.VerifyDiffProof(l2, n, th, lh, oldRoot, newRoot, nil) }
 		if mRoot(nl) == newRoot {
 			b.Guard("C16/sound/"+name+"/"+kind, wit, func() { observe(b, name, kind+"(same resulting list: claim still true)", verify(th, lh, fr, oldRoot, newRoot)) })
 			return
 		}
 		tamper(b, name, kind, wit, what, func() bool { return verify(th, lh, fr, oldRoot, newRoot) })
+		if all {
+			tamper(b, "VerifyDiffProof", v2kind, wit, what+" (as swap/trim actions)", v2)
+		}
 	}
 	inSet := map[uint64]bool{}
 	for _, f := range freed {
@@ -280,24 +286,32 @@ func freeCase(b *harness.B, leaves []H, seed uint64, freed []uint64, all bool) {
 		}
 	}
 	for _, i := range pickIdx(b, len(freed), all, 3) {
-		if len(outside) > 0 {
-			repl := outside[b.Rng.IntN(len(outside))]
+		repls := outside
+		if !all && len(outside) > 2 {
+			repls = []uint64{outside[b.Rng.IntN(len(outside))], outside[b.Rng.IntN(len(outside))]}
+		}
+		for _, repl := range repls { // small trees: every replacement index
 			fr := cloneU(freed)
 			fr[i] = repl
-			judgeSet("freed-index-replaced", fmt.Sprintf("freed[%d] is %d instead of %d", i, repl, freed[i]), fr)
+			judgeSet("freed-index-replaced", "action-swap-operand-altered", fmt.Sprintf("freed[%d] is %d instead of %d", i, repl, freed[i]), fr)
 		}
 		fr := append(cloneU(freed[:i]), freed[i+1:]...)
-		judgeSet("freed-index-dropped", fmt.Sprintf("freed[%d]=%d is missing", i, freed[i]), fr)
+		judgeSet("freed-index-dropped", "action-swap-dropped", fmt.Sprintf("freed[%d]=%d is missing", i, freed[i]), fr)
 	}
-	if len(outside) > 0 {
-		extra := outside[b.Rng.IntN(len(outside))]
-		judgeSet("freed-index-added", fmt.Sprintf("index %d is freed in addition", extra), append(cloneU(freed), extra))
+	adds := outside
+	if !all && len(outside) > 1 {
+		adds = []uint64{outside[b.Rng.IntN(len(outside))]}
 	}
-	if len(freed) >= 2 {
+	for _, extra := range adds {
+		judgeSet("freed-index-added", "action-swap-added", fmt.Sprintf("index %d is freed in addition", extra), append(cloneU(freed), extra))
+	}
+	for i := 0; i+1 < len(freed); i++ {
+		if !all && i != 0 {
+			break
+		}
 		fr := cloneU(freed)
-		i := b.Rng.IntN(len(fr) - 1)
 		fr[i], fr[i+1] = fr[i+1], fr[i]
-		judgeSet("freed-indices-reordered", fmt.Sprintf("freed[%d] and freed[%d] are exchanged", i, i+1), fr)
+		judgeSet("freed-indices-reordered", "action-swaps-reordered", fmt.Sprintf("freed[%d] and freed[%d] are exchanged", i, i+1), fr)
 	}
 
 	// the same operation through the rhp2 names
